@@ -61,10 +61,10 @@ Fixpoint binds (t : node) : list string :=
   | _ => []
   end.
 
-(* the names called at statement level in a (resolved) statement of the fragment *)
-Fixpoint callees (t : node) : list string :=
+(* the calls at statement level in a (resolved) statement of the fragment: callee and number of arguments *)
+Fixpoint callees (t : node) : list (string * nat) :=
   match t with
-  | NCall (NName nm) _ => [nm]
+  | NCall (NName nm) args => [(nm, List.length args)]
   | NAssign _ e => callees e
   | NBlock l => List.concat (map callees l)
   | NIf _ b => callees b
@@ -76,29 +76,38 @@ Fixpoint callees (t : node) : list string :=
 Definition is_builtin_leaf (nm : string) : bool :=
   match bop_of_name nm with Some _ => true | None => String.eqb nm "read" end.
 
-(* f = (p) -> body with a body the theorem covers: one parameter, no other variable, a pure expression of
-   the parameter and of globals that are not functions of the table *)
-Definition lambda_def (t : node) : option string :=
+Definition builtin_call_ok (c : string * nat) : bool :=
+  match bop_of_name (fst c) with
+  | Some _ => Nat.eqb (snd c) 1
+  | None => String.eqb (fst c) "read" && Nat.eqb (snd c) 0
+  end.
+
+(* f = (p1, .., pk) -> body with a body the theorem covers: no variable but the parameters, the body a pure
+   expression of them and of the globals *)
+Definition lambda_def (t : node) : option (string * nat) :=
   match strewrite t with
-  | Some (NAssign (NName f) (NFunction [_] body lc)) =>
-      if (lc =? 1) && lpure1 body && negb (is_builtin_leaf f) then Some f else None
+  | Some (NAssign (NName f) (NFunction ps body lc)) =>
+      if (lc =? zlen ps) && lpure (repeat VNil (List.length ps)) body && negb (is_builtin_leaf f)
+      then Some (f, List.length ps) else None
   | _ => None
   end.
 
 (* the trees of one session that lie in the fragment: built-in names still hold the built-ins, and every
    function called is a built-in or a user function defined earlier by a qualifying definition and not
-   rebound since (funs) *)
-Fixpoint count_fragment (trees : list node) (intact : bool) (funs : list string) : nat :=
+   rebound since (funs), called with as many arguments as it has parameters *)
+Fixpoint count_fragment (trees : list node) (intact : bool) (funs : list (string * nat)) : nat :=
   match trees with
   | [] => 0
   | t :: r =>
       let ok := intact && in_fragment t &&
                 match strewrite t with
-                | Some t' => forallb (fun nm => is_builtin_leaf nm || existsb (String.eqb nm) funs) (callees t')
+                | Some t' => forallb (fun c => builtin_call_ok c ||
+                                               existsb (fun f => String.eqb (fst c) (fst f) && Nat.eqb (snd c) (snd f)) funs)
+                                     (callees t')
                 | None => false
                 end in
       let bound := binds t in
-      let funs1 := filter (fun f => negb (existsb (String.eqb f) bound)) funs in
+      let funs1 := filter (fun f => negb (existsb (String.eqb (fst f)) bound)) funs in
       let funs2 := match lambda_def t with Some f => f :: funs1 | None => funs1 end in
       ((if ok then 1 else 0) + count_fragment r (intact && negb (rebinds_builtin t)) funs2)%nat
   end.
